@@ -205,15 +205,24 @@ def e_move(files, opts, rng):
 
 def e_toml(files, opts, rng):
     b = opts.setdefault("build", {})
-    k = rng.randrange(4)
-    if k == 0:
-        b["reset_type"] = rng.choice(['"async_low"', '"sync_high"', '"async_high"', '"sync_low"'])
-    elif k == 1:
-        b["clock_type"] = rng.choice(['"posedge"', '"negedge"'])
-    elif k == 2:
-        b["omit_project_prefix"] = rng.choice(["true", "false"])
-    else:
-        b["strip_comments"] = rng.choice(["true", "false"])
+    k = rng.choice(sorted(TOML_CHOICES))
+    cur = b.get(k, TOML_DEFAULTS[k])
+    b[k] = rng.choice([v for v in TOML_CHOICES[k] if v != cur])     # always a real change
+
+
+TOML_DEFAULTS = {"reset_type": '"async_low"', "clock_type": '"posedge"', "omit_project_prefix": "false",
+                 "strip_comments": "false"}
+TOML_CHOICES = {"reset_type": ['"async_low"', '"sync_high"', '"async_high"', '"sync_low"'],
+                "clock_type": ['"posedge"', '"negedge"'], "omit_project_prefix": ["true", "false"],
+                "strip_comments": ["true", "false"]}
+
+
+def effective_build(opts):
+    """The [build] section as the tool sees it (defaults filled): two option dicts with the same
+    effective section have the same cache key."""
+    e = dict(TOML_DEFAULTS)
+    e.update(opts.get("build", {}))
+    return tuple(sorted(e.items()))
 
 
 def e_port_width(files, opts, rng):
